@@ -205,9 +205,13 @@ def observe_impl(case):
                 views[key] = f'raise {type(e).__name__}'
         order = None
         if tmp is not None:
-            # the spliced line order, as the parser saw it: what every _reslist entry was read from
-            order = [('i', str(x)[1:]) if isinstance(x, str) and x.startswith('+') else ('l', str(x).split()[0] if str(x).split() else '')
-                     for x in shx._reslist]
+            # the instruction sequence the parser ended up with (include lines, blank and continuation lines skipped)
+            order = []
+            for x in shx._reslist:
+                s_ = str(x)
+                if not s_.strip() or s_.startswith('+') or (isinstance(x, str) and x.startswith(' ')):
+                    continue
+                order.append(s_.split()[0].upper())
         return dict(atoms=atoms, views=views, order=order)
     finally:
         if tmp is not None:
@@ -474,12 +478,14 @@ def evaluate(ctx, cases, stream=None):
 # include splicing: order of lines
 
 def evaluate_include(ctx, cases):
+    """the instruction sequence the parser ends up with (first word of every non-blank entry of the line list; the
+    '+file' lines themselves and continuation lines are not looked at) against the spliced file"""
     if not cases:
         return
     ctx.stream('include')
-    reqs = []
+    reqs, maps = [], []
     for case in cases:
-        tagmap = {}
+        first = {}
 
         def items_of(items):
             out = []
@@ -487,27 +493,34 @@ def evaluate_include(ctx, cases):
                 if it[0] == 'inc':
                     out.append(['i', it[1]])
                 else:
-                    for _ in item_text(it):
-                        out.append(['l', len(tagmap)])
-                        tagmap[len(tagmap)] = it
+                    for ln in item_text(it):
+                        out.append(['l', len(first)])
+                        first[len(first)] = None if (not ln.strip() or ln.startswith(' ')) else ln.split()[0].upper()
             return out
-        main = [['l', 10 ** 6 + i] for i in range(len(HEADER) + 3)] + items_of(case['body'])
+        body = items_of(case['body'])
+        head = HEADER + ['SFAC', 'UNIT', 'FVAR']
+        for i, ln in enumerate(head):
+            first[10 ** 6 + i] = ln.split()[0]
+        main = [['l', 10 ** 6 + i] for i in range(len(head))] + body
         fs = [dict(name=n, items=items_of(its)) for n, its in case['includes'].items()]
         reqs.append(dict(p='C03', op='splice', main=main, fs=fs))
+        maps.append(first)
     answers = ctx.driver.batch(reqs)
-    for case, rq, ans in zip(cases, reqs, answers):
+    for case, first, ans in zip(cases, maps, answers):
         obs = observe_impl(case)
-        ctx.count(['include', case['body'], case['includes']], nontrivial=True, tags=['include', f'files={len(case["includes"])}', 'include-in-domain' if ans['in_domain'] else 'include-outside'])
+        ctx.count(['include', case['body'], case['includes']], nontrivial=True,
+                  tags=['include', f'files={len(case["includes"])}', 'include-in-domain' if ans['in_domain'] else 'include-outside'])
         if 'error' in obs or obs.get('order') is None:
             continue  # reported by the atoms stream
-        got = [x[1] if x[0] == 'i' else 'l' for x in obs['order']]
-        spec = [x[1] if x[0] == 'i' else 'l' for x in ans['spec']]
-        model = None if ans['model'] is None else [x[1] if x[0] == 'i' else 'l' for x in ans['model']]
+        got = obs['order']
+        words = lambda items: [first[x[1]] for x in items if x[0] == 'l' and first[x[1]] is not None]
+        spec = words(ans['spec'])
+        model = None if ans['model'] is None else words(ans['model'])
         payload = dict(case=case, stream='atoms', expected=spec, actual=got, model=model)
         if ans['in_domain'] and got != spec:
-            ctx.fail('C03|include|order', f'lines after splicing {got}, SHELXL reads {spec}', payload)
+            ctx.fail('C03|include|order', f'instructions after splicing {got}, SHELXL reads {spec}', payload)
         elif got != model:
-            ctx.fail('C03|include|order|model', f'lines after splicing {got}, model {model}', payload, kind='correspondence')
+            ctx.fail('C03|include|order|model', f'instructions after splicing {got}, model {model}', payload, kind='correspondence')
 
 
 # ------------------------------------------------------------------------------------------------
